@@ -536,8 +536,9 @@ class FuncVerifier(object):
         return v
 
     def site(self, node, kind):
-        # stable-ish site name: statement ordinal inside the function by line offset from def
-        return '%s@+%d' % (kind, node.lineno - self.fdef.lineno)
+        # bounds / shape / allocation checks of a function are aggregated under one obligation id
+        # (`safety`), so that the ledger does not depend on line numbers; the line is kept in the VC
+        return 'safety'
 
     def bounds(self, st, k, n, node):
         self.oblige(st, self.site(node, 'bounds'), z3.And(0 <= k, k < n), node)
@@ -823,9 +824,10 @@ class FuncVerifier(object):
             for x in (av_a, av_b):
                 if isinstance(x, AV) and x.elem == 'cplx':
                     raise OutOfFragment('complex array arithmetic', node)
-            res, side = array_binop(op, av_a, av_b, node)
+            res, side, axioms = array_binop(op, av_a, av_b, node)
             if side:
                 self.oblige(st, self.site(node, 'shape'), z3.And(*side), node)
+            st.pc.extend(axioms)
             return st.alloc(res)
         if is_z3(a) and a.sort() == CPLX or is_z3(b) and b.sort() == CPLX:
             if isinstance(op, ast.Mult) and a.sort() == CPLX and b.sort() == CPLX:
@@ -986,7 +988,9 @@ class FuncVerifier(object):
         if short == 'eye':
             nn = as_num(self.pev(n.args[0], st))
             i, j = fresh('i', I), fresh('j', I)
-            return st.alloc(AV(z3.Lambda([i], z3.Lambda([j], z3.If(i == j, z3.IntVal(1), z3.IntVal(0)))), (nn, nn)))
+            eye = fresh('eye', A2)
+            st.pc.append(z3.ForAll([i, j], eye[i][j] == z3.If(i == j, z3.IntVal(1), z3.IntVal(0)), patterns=[eye[i][j]]))
+            return st.alloc(AV(eye, (nn, nn)))
         if short == 'array':
             if isinstance(n.args[0], ast.List):
                 items = [self.pev(e, st) for e in n.args[0].elts]
